@@ -352,19 +352,19 @@ def soaDefault (r : PState) (ty : Nat) (rd : Rdata) : PState :=
     | _ => r
   else r
 
-theorem finish_stage (r2 : PState) (m zo : Name) (ttl ty : Nat) (rdText rest : List Nat) (rd : Rdata)
+theorem finish_stage (r2 : PState) (m co zo : Name) (ttl ty : Nat) (rdText rest : List Nat) (rd : Rdata)
     (comment : Option (List Nat))
-    (hco : r2.currentOrigin = some zo) (hzo : r2.zoneOrigin = some zo)
+    (hco : r2.currentOrigin = some co) (hzo : r2.zoneOrigin = some zo)
     (htok : r2.tok = after 0 false (rdText ++ rest))
-    (hrd : RdataReads ty rdText rd comment (some zo) r2.relativize (some zo) r2.gfix) :
+    (hrd : RdataReads ty rdText rd comment (some co) r2.relativize (some zo) r2.gfix) :
     rrFinish m (some ttl) ty r2 =
       .ok (some ⟨m, ttl, ty, ⟨rd, comment⟩⟩, soaDefault { r2 with tok := after 0 false rest } ty rd) := by
   unfold rrFinish
   simp only [bind, Except.bind, hco, hzo, htok, hrd.2 rest]
   unfold soaDefault
   by_cases hc : r2.defaultTTLKnown = false ∧ ty = tSOA
-  · cases rd <;> simp [hc, pure, Except.pure, hco, hzo]
-  · simp [hc, pure, Except.pure, hco, hzo]
+  · cases rd <;> simp [hc, pure, Except.pure]
+  · simp [hc, pure, Except.pure]
 
 /-- a record line: owner written or inherited, blanks, header, RDATA text (from the delimiter after the type token to
 the end of the line), and what it denotes -/
@@ -384,14 +384,17 @@ def GLine.text (l : GLine) : List Nat := l.owner.getD [] ++ (l.b0 ++ (l.hdr.text
 
 def GLine.entry (l : GLine) : Entry := ⟨l.m, l.ttl, l.ty, ⟨l.rd, l.comment⟩⟩
 
-structure GLine.Good (l : GLine) (zo : Name) (rel gfix : Bool) : Prop where
+/-- `co` is the current origin (`$ORIGIN`), `zo` the zone origin: relative names are completed with `co`; membership,
+the stored owner and the relativization of RDATA names are taken against `zo` (the argument triple
+`(current_origin, relativize, zone_origin)` of both `_rr_line` and `_generate_line`). -/
+structure GLine.Good (l : GLine) (co zo : Name) (rel gfix : Bool) : Prop where
   b0 : SepOK l.b0
   owner : ∀ ow, l.owner = some ow →
-    identOK ow = true ∧ ow ≠ [] ∧ ow.head? ≠ some 36 ∧ (identToken ow).asName (some zo) false none = .ok l.n
+    identOK ow = true ∧ ow ≠ [] ∧ ow.head? ≠ some 36 ∧ (identToken ow).asName (some co) false none = .ok l.n
   in_zone : isSubdomain l.n zo = true
   stored : ownerInZone rel l.n zo = .ok l.m
   hdr : l.hdr.OK l.ttl l.ty
-  rdata : RdataReads l.ty l.rdText l.rd l.comment (some zo) rel (some zo) gfix
+  rdata : RdataReads l.ty l.rdText l.rd l.comment (some co) rel (some zo) gfix
 
 /-- parser state after the line -/
 def afterG (r : PState) (l : GLine) (rest : List Nat) : PState :=
@@ -401,10 +404,10 @@ def afterG (r : PState) (l : GLine) (rest : List Nat) : PState :=
     else { r with tok := after 0 false rest, lastName := some l.n }) l.ty l.rd
 
 /-- **any record line the writer can produce is read as its record** -/
-theorem lineStep_G (r : PState) (l : GLine) (rest : List Nat) (zo : Name)
-    (hco : r.currentOrigin = some zo) (hzo : r.zoneOrigin = some zo)
+theorem lineStep_G (r : PState) (l : GLine) (rest : List Nat) (co zo : Name)
+    (hco : r.currentOrigin = some co) (hzo : r.zoneOrigin = some zo)
     (htok : r.tok = after 0 false (l.text ++ rest))
-    (hg : l.Good zo r.relativize r.gfix)
+    (hg : l.Good co zo r.relativize r.gfix)
     (hown : l.owner = none → r.lastName = some l.n)
     (httl : l.hdr.hasTTL = false → r.inheritedTTL = some l.ttl) :
     lineStep r = .ok (.entry l.entry, afterG r l rest) := by
@@ -418,7 +421,7 @@ theorem lineStep_G (r : PState) (l : GLine) (rest : List Nat) (zo : Name)
     simp [GLine.text, Hdr.text, List.append_assoc]
   rw [htxt] at htok
   -- the two owner cases lead to a state whose first `_get_identifier` is the first header token
-  have key : ∀ (r1 : PState), r1.relativize = r.relativize → r1.gfix = r.gfix → r1.currentOrigin = some zo →
+  have key : ∀ (r1 : PState), r1.relativize = r.relativize → r1.gfix = r.gfix → r1.currentOrigin = some co →
       r1.zoneOrigin = some zo → r1.inheritedTTL = r.inheritedTTL → r1.defaultTTLKnown = r.defaultTTLKnown →
       getIdent r1.tok = .ok (identToken l.hdr.first, after 0 false (l.hdr.rest ++ (l.rdText ++ rest))) →
       ((rrHeader r1).bind fun x => rrFinish l.m x.1.1 x.1.2 x.2) =
@@ -432,26 +435,26 @@ theorem lineStep_G (r : PState) (l : GLine) (rest : List Nat) (zo : Name)
     | true =>
       simp only [if_true]
       have := finish_stage { r1 with tok := after 0 false (l.rdText ++ rest), lastTTL := l.ttl, lastTTLKnown := true }
-        l.m zo l.ttl l.ty l.rdText rest l.rd l.comment e3 e4 rfl (by simpa [e1, e2] using hg.rdata)
+        l.m co zo l.ttl l.ty l.rdText rest l.rd l.comment e3 e4 rfl (by simpa [e1, e2] using hg.rdata)
       simpa [GLine.entry] using this
     | false =>
       simp only [Bool.false_eq_true, if_false]
       rw [e5, httl hh]
       have := finish_stage { r1 with tok := after 0 false (l.rdText ++ rest) }
-        l.m zo l.ttl l.ty l.rdText rest l.rd l.comment e3 e4 rfl (by simpa [e1, e2] using hg.rdata)
+        l.m co zo l.ttl l.ty l.rdText rest l.rd l.comment e3 e4 rfl (by simpa [e1, e2] using hg.rdata)
       simpa [GLine.entry] using this
   cases hown' : l.owner with
   | some ow =>
     obtain ⟨o1, o2, o3, o4⟩ := hg.owner ow hown'
     simp only [hown', Option.getD_some] at htok
-    rw [owner_explicit_stage r ow _ zo zo l.n l.m hco hzo htok (blank_startsDelim _ _ hg.b0.blank hg.b0.ne)
+    rw [owner_explicit_stage r ow _ co zo l.n l.m hco hzo htok (blank_startsDelim _ _ hg.b0.blank hg.b0.ne)
       o1 o2 o3 o4 hg.in_zone hg.stored]
     rw [key { r with tok := after 0 false (l.b0 ++ (l.hdr.first ++ (l.hdr.rest ++ (l.rdText ++ rest)))), lastName := some l.n }
       rfl rfl hco hzo rfl rfl (getIdent_blank l.b0 _ _ hg.b0.blank hfo.ok hfo.ne hT1)]
     simp only [Except.map, afterG]
   | none =>
     simp only [hown', Option.getD_none, List.nil_append] at htok
-    rw [owner_inherited_stage r l.b0 l.hdr.first _ zo zo l.n l.m hco hzo (hown hown') htok hg.b0.blank hg.b0.ne
+    rw [owner_inherited_stage r l.b0 l.hdr.first _ co zo l.n l.m hco hzo (hown hown') htok hg.b0.blank hg.b0.ne
       hfo.ok hfo.ne hT1 hg.in_zone hg.stored]
     rw [key { r with tok := { after 0 false (l.hdr.rest ++ (l.rdText ++ rest)) with ungotten := some (identToken l.hdr.first) } }
       rfl rfl hco hzo rfl rfl (getIdent_ungot _ _ rfl)]
